@@ -318,7 +318,7 @@ func spec() corr.Spec {
 			case "thorough":
 				return 60000
 			}
-			return 120000
+			return 60000
 		},
 		// independent scripts: spread them over child processes (the lock scripts of C17 are scheduler-driven and cannot
 		// share a process; for both properties it keeps a run through the failing-input search well under two minutes)
